@@ -37,6 +37,10 @@ func main() {
 		err = cmdLimits(os.Args[2:])
 	case "fidelity":
 		err = cmdFidelity(os.Args[2:])
+	case "reload":
+		err = cmdReload(os.Args[2:])
+	case "wfa-child":
+		err = cmdWfaChild(os.Args[2:])
 	default:
 		err = fmt.Errorf("unknown subcommand %q", os.Args[1])
 	}
